@@ -86,6 +86,20 @@ CLAIMED["C03"] = dict(
     technique="contract-based deductive verification of the operation-level check (SMT) + bounded stand-in with independent isomorphism oracle",
 )
 
+CLAIMED["C08"] = dict(
+    category="proof",
+    text="FloatData.__eq__/__hash__ are extracted from /repo and verified on 64-bit payload patterns: equal exactly when the bit patterns are "
+         "equal (hence reflexive, symmetric, transitive; 0.0 != -0.0; NaNs by payload) and the hash is a function of the pattern alone. "
+         "IntegerType.normalized_value: per width/signedness/truncate flag the stored value is a canonical function of the bit pattern (same "
+         "pattern -> same value, different patterns -> different values). OperationInfo.__eq__ (CSE key): equal keys have equal hashes. A scan "
+         "lists every Attribute subclass with a hand-written __eq__/__hash__ (must be under contract); bounded stand-ins exercise a pool of "
+         "builtin attribute values (symmetry, transitivity, eq => hash, rebuilt copies equal) and float bit patterns.",
+    note="Assumed: dataclass-generated field-wise eq/hash for all other attributes (CPython); payload types have consistent ==/hash; CPython "
+         "hash(float)/hash(bytes) model; IntegerAttr.__init__ wiring and UnregisteredAttr class cache only bounded/not covered; pyvc + z3 trusted.",
+    design="§4 C08",
+    technique="contract-based deductive verification (bit-vector payload model, SMT) + override scan + bounded stand-in",
+)
+
 NOT_APPLICABLE = {
     "C04": "whole Printer∘Parser composition over every dialect: recursive string programs; no per-function contract within reach of the SMT-backed generator expresses it",
     "C05": "about 80 dialects of hand-written print/parse pairs and a format-string interpreter; same obstacle as C04",
@@ -99,7 +113,7 @@ NOT_APPLICABLE = {
     "C28": "result preservation of an e-graph pipeline: whole-program statement with no per-function postcondition implying it",
 }
 
-NOT_REACHED = ["C02", "C06", "C08", "C09", "C11", "C13", "C14", "C18", "C19", "C20", "C24", "C25", "C26"]
+NOT_REACHED = ["C02", "C06", "C09", "C11", "C13", "C14", "C18", "C19", "C20", "C24", "C25", "C26"]
 
 
 def main():
